@@ -61,6 +61,18 @@ def same_helper(ctx):
     ok = helper_div == helper_jp and len(helper_div) == 1 and div_false and all(e == "encoded" for _c, e in callees["joinpath"])
     ctx.ob(rule, "_url.URL.__truediv__", f"helpers {sorted(callees['__truediv__'])} / {sorted(callees['joinpath'])}", ok,
            "`/` and joinpath() do not reach the same helper with encoded=False by default", sample="both -> _make_child, encoded default False")
+    # ... and the helper receives the operands as they were given, one element per operand, on every path: joinpath(a, b) is
+    # joinpath(a).joinpath(b) only if the per-element handling (trailing empty segment, leading slash) sees each element
+    jp = m.func("_url.URL.joinpath")
+    va = jp.node.args.vararg.arg if jp.node.args.vararg else None
+    rj = analyze(m, jp)
+    ctx.instance(rule)
+    handed = [v[2][0] for _s, v, _n in rj.returns if v[0] == "call" and v[1][0] == "attr" and v[1][1] == ("param", "self") and v[2]]
+    ok2 = va is not None and bool(handed) and all(h == ("param", va) for h in handed)
+    ctx.ob(rule, jp.qual, "operands handed to the helper", ok2,
+           f"joinpath() re-packs its operands before the helper sees them ({[show(h)[:40] for h in handed if h != ('param', va)][:2]}): the helper's "
+           "per-operand rules no longer apply to each operand, so joinpath(a, b) and joinpath(a).joinpath(b) differ", where(jp, jp.node),
+           sample="the *args tuple itself")
     from ..rules import flow as _flow
     _flow.f_sink(ctx)       # the path every operation computed is the path the result stores
     # the path accessors the algebra is stated over read the stored path: a constructor that pre-fills one of them stores what the
